@@ -22,7 +22,7 @@ EXHAUSTIVE_SUBSPACES = 'every islice (start,stop,step) tuple over start in {None
 EXHAUSTIVE = {"quick": False, "thorough": False}
 
 N_RANDOM = {"quick": 150000, "thorough": 8000000}
-FLAVS = ["list", "list", "async_gen", "async_class", "sync_iter", "tuple", "getitem_seq", "sync_gen"]
+FLAVS = ["list", "list", "async_gen", "async_class", "sync_iter", "tuple", "getitem_seq", "sync_gen", "async_class_bare"]
 
 
 def cases(tier, seed, shard, nshards):
